@@ -29,6 +29,8 @@ SCENARIOS = [
     ('send_exit_msg', 'Exception', False, 'ABORT'),
     ('loop_once', 'KeyboardInterrupt', False, 'ABORT'),
     ('init', 'Exception', False, None),
+    ('init', 'KeyboardInterrupt', False, None),      # neither an Exception nor Filter.Exit: only the finally blocks of run() are left to close the lineage run
+    ('setup', 'KeyboardInterrupt', False, None),
 ]
 
 
@@ -136,14 +138,13 @@ def _judge(rr, repo, what):
                 n += 1
                 seq = ' '.join(e[0] for e in evs)
                 w = f'{label}: {seq or "(no events)"}'
-                want_n = 1 if (start and init_returned(p, site, kind)) else (None if start else 0)
+                want_n = 1 if start else 0        # a run that announced START owes exactly one terminal event, wherever it was cut short afterwards (also inside init)
                 if what == 'count':
-                    if want_n is None:
-                        ok = len(term) <= 1
-                    else:
-                        ok = len(term) == want_n
+                    ok = len(term) == want_n
                     if ok:
                         rr.holds('exactly one terminal event', mod, run, witness=w, key=f'count-ok|{label}')
+                    elif start and not term:
+                        rr.violated('a run that emitted START ends without any terminal event (and nothing stops its heartbeat)', mod, run, witness=w, key=f'no-terminal|{label}')
                     else:
                         # every emission site that takes part in the malformed history is a separately keyed finding
                         for k, skey, node in term:
@@ -221,7 +222,19 @@ def r3(rr, repo):
             if isinstance(n, (ast.Assign, ast.AugAssign)) and any(isinstance(t, ast.Attribute) and t.attr == 'run_id' and 'emitter' in U(t) for t in (n.targets if isinstance(n, ast.Assign) else [n.target])):
                 rr.violated('the run id of the emitter is reassigned outside its constructor', mod2, n, key=f'runid-store|{mod2.relpath}')
     _, ctor = repo.find(f'{LIN}::OpenFilterLineage.__init__')
-    rr.ob('run_id is assigned exactly once, in the constructor of the emitter', len(stores) == 1 and enclosing_function(stores[0]) is ctor, lm, stores[0] if stores else ctor, witness=f'{len(stores)} stores', key='runid-once')
+    # one id per run: drawn where a run begins - in emit_start, before the START event is built (the emitter object is made once at import, it is shared by every filter of a
+    # forked pipeline and by a second run in the same process) - or, at the least, in the constructor; nowhere else (an id that changes mid-run splits the history)
+    _, estart = repo.find(f'{LIN}::OpenFilterLineage.emit_start')
+    places = [enclosing_function(n) for n in stores]
+    elsewhere = [n for n, f_ in zip(stores, places) if f_ is not ctor and f_ is not estart]
+    rr.ob('the run id is assigned only where a run begins (constructor, emit_start)', bool(stores) and not elsewhere, lm, elsewhere[0] if elsewhere else (stores[0] if stores else ctor),
+          witness=f'{len(stores)} stores in {sorted({f_.name for f_ in places})}', key='runid-once')
+    in_start = [n for n, f_ in zip(stores, places) if f_ is estart]
+    for n in in_start:
+        first_emit = min([c.lineno for c in q.calls_in(estart) if U(c.func).endswith('_emit_event')] or [10 ** 9])
+        rr.ob('inside emit_start the id is drawn before the START event is built, unconditionally', n.lineno < first_emit and not [t for t, pol in q.guards_of(n, stop=estart)], lm, n, witness=U(n)[:60], key='runid-before-start')
+    rr.ob('every run gets an id of its own: emit_start draws a fresh one (the emitter object outlives runs and is inherited by forked filter processes)', bool(in_start) and all(isinstance(n.value, ast.Call) for n in in_start), lm,
+          in_start[0] if in_start else estart, witness=f'{len(in_start)} stores in emit_start', key='runid-per-run')
     _, emit = repo.find(f'{LIN}::OpenFilterLineage._emit_event')
     runs = [c for c in q.name_calls(emit, 'Run')]
     ok = bool(runs) and all(q.kwarg(c, 'runId') is not None and U(q.kwarg(c, 'runId')) == 'self.run_id' for c in runs)
@@ -399,10 +412,11 @@ def r6(rr, repo):
         else:
             rr.unresolved(text + ' - the normaliser is written in a way this rule does not recognise', lm, node, witness=witness, key=key)
     str_ok = bool(first) and any(isinstance(c, ast.Call) and U(c.func) == 'str' and U(c.args[0]) == k for c in ast.walk(first[0].value))
-    raw_method = bool(first) and isinstance(first[0].value, ast.Call) and isinstance(first[0].value.func, ast.Attribute) and U(first[0].value.func.value) == k
+    raw_method = bool(first) and not str_ok and any(isinstance(c, ast.Call) and ((isinstance(c.func, ast.Attribute) and U(c.func.value) == k) or (U(c.func) == 're.sub' and len(c.args) == 3 and U(c.args[2]) == k))
+                                                       for c in ast.walk(first[0].value))      # a str method, or re.sub, applied to the key as it came in
     judge('the normaliser accepts any key: the first thing it does is turn the key into a string', str_ok, raw_method or not first, first[0] if first else loop[0],
           U(first[0].value)[:80] if first else 'no rebinding of the key', 'normalise-str')
-    subs = [c for c in q.calls_in(loop[0]) if U(c.func) == 're.sub' and len(c.args) == 3 and U(c.args[2]) == k and q.const_str(c.args[0]) is not None]
+    subs = [c for c in q.calls_in(loop[0]) if U(c.func) == 're.sub' and len(c.args) == 3 and any(isinstance(x, ast.Name) and x.id == k for x in ast.walk(c.args[2])) and q.const_str(c.args[0]) is not None]
     cls_ok, wit = False, 'no re.sub over the key'
     for c in subs:
         try:
@@ -427,6 +441,17 @@ def r6(rr, repo):
         return all(not isinstance(c, ast.Call) or U(c.func) in ('str',) or (isinstance(c.func, ast.Attribute) and c.func.attr in ('lstrip', 'rstrip', 'strip', 'replace', 'lower', 'upper')) for c in ast.walk(v))
     judge('every character that cannot be part of an identifier is replaced (a negated class of identifier characters, replaced by identifier characters)', cls_ok, not subs and all(literal_edits_only(n.value) for n in rebinds),
           subs[0] if subs else loop[0], wit, 'normalise-class')
+    # no key comes out with a leading underscore (the facet defines '_producer' itself; a key like '-producer' must not turn into it): leading underscores are stripped from
+    # the RESULT of the substitution, not before it
+    if subs:
+        sub = subs[0]
+        par = parent(sub)
+        inside_arg = any(isinstance(c, ast.Call) and isinstance(c.func, ast.Attribute) and c.func.attr == 'lstrip' for c in ast.walk(sub.args[2]))       # re.sub(.., .., <k>.lstrip('_')): stripped before
+        after_sub = (isinstance(par, ast.Attribute) and par.attr == 'lstrip') or \
+            any(isinstance(c, ast.Call) and isinstance(c.func, ast.Attribute) and c.func.attr == 'lstrip' and U(c.func.value) == k and c.lineno > sub.lineno for c in q.calls_in(loop[0]))
+        before_only = not after_sub and (inside_arg or any(isinstance(c, ast.Call) and isinstance(c.func, ast.Attribute) and c.func.attr == 'lstrip' for c in q.calls_in(loop[0])))
+        judge("leading underscores are stripped after the character substitution (so that '-producer' cannot become the facet's own '_producer')", after_sub, before_only or not any(
+              isinstance(c, ast.Call) and isinstance(c.func, ast.Attribute) and c.func.attr == 'lstrip' for c in q.calls_in(loop[0])), sub, U(q.enclosing_stmt(sub))[:100], 'normalise-no-leading-underscore')
     fall = [n for n in loop[0].body if isinstance(n, ast.If) and 'isidentifier()' in U(n.test) and 'iskeyword(' in U(n.test)]
     own = sorted({e.elts[0].value for e in ast.walk(mk) if isinstance(e, ast.Tuple) and len(e.elts) == 3 and q.const_str(e.elts[0]) is not None})
     fb_ok = False
